@@ -84,6 +84,11 @@ theorem float_np (parseF : String → Option Nat) (inj : Nat → α) : (floatHoo
       split
       · exact Outcome.returns_ok _
       · exact Outcome.returns_err _
+    case int d sfx =>
+      simp only []
+      split
+      · exact Outcome.returns_ok _
+      · exact Outcome.returns_err _
     all_goals exact Outcome.returns_err _
   · subst hf; exact hs
 
